@@ -811,13 +811,22 @@ def rule_LS(run: Run) -> RuleResult:
     reg = ov.methods.get("register")
     if reg is None:
         raise AnalysisError("Overloaded.register not found")
-    held_r = _with_stack(reg)
-    ov_locks = {f"self.{a}" for a in _lock_attrs(repo, ov)} or {"self._lock"}
-    for x in astu.walk_no_nested(reg):
-        if isinstance(x, ast.Attribute) and x.attr == "lookup" and isinstance(x.value, ast.Name) and x.value.id == "self" and isinstance(x.ctx, ast.Load):
-            ok = any(h_ in held_r.get(id(x), []) for h_ in ov_locks)
-            res.add("labrea.overload.Overloaded.register:read of the table it replaces is under self._lock", ok, ovm.relpath, x.lineno,
-                    f"held: {held_r.get(id(x), [])}" + ("" if ok else " — the read-modify-write is not atomic: a concurrent registration made between the copy and the assignment is lost"), nec)
+    # the table register() replaces is read under the same lock: every read of self.lookup on its paths (whatever helper or
+    # context manager takes the lock) happens while the object's lock is held
+    rctx = Ctx(repo)
+    rctx.track_reads = {"lookup"}
+    n_reads = 0
+    seen_reads = {}
+    for p in analyse_method(rctx, ov, "register"):
+        for e in p.events:
+            if e.kind == "read" and e.text == "self.lookup":
+                n_reads += 1
+                s_ = seen_reads.setdefault(e.line, [True, ()])
+                s_[0] = s_[0] and any(h_ in e.held for h_ in ov_held)
+                s_[1] = e.held
+    for line_, (ok, held_) in sorted(seen_reads.items()):
+        res.add("labrea.overload.Overloaded.register:read of the table it replaces is under self._lock", ok, ovm.relpath, line_,
+                f"held: {list(held_)}" + ("" if ok else " — the read-modify-write is not atomic: a concurrent registration made between the copy and the assignment is lost"), nec)
     if not any(e.kind == "store" and len(e.args) == 2 and e.args[0].key() == SELF.key() and e.args[1].key() == "Const('lookup')"
                for p in analyse_method(Ctx(repo), ov, "register") for e in p.events):
         res.add("labrea.overload.Overloaded.register:updates self.lookup", False, ovm.relpath, reg.lineno, "register no longer assigns self.lookup", nec)
